@@ -467,11 +467,12 @@ Proof.
 Qed.
 
 (* Range on trees whose two key forms coincide (all generated kinds): exactly the stored keys in [gs, ge] *)
-Theorem run_range_spec : forall t gs ge ans,
-  WF 0 t -> (forall l, In l (leaves t) -> lgk l = ltk l) -> lex_le gs ge ->
+(* whichever way round the two byte bounds are: with gs above ge the filter is empty and so is the scan *)
+Theorem run_range_any : forall t gs ge ans,
+  WF 0 t -> (forall l, In l (leaves t) -> lgk l = ltk l) ->
   walk_is (run_range (Some t) gs ge gs ge ans) ans (filter (in_range gs ge) (leaves t)).
 Proof.
-  intros t gs ge ans Hwf Hgk _.
+  intros t gs ge ans Hwf Hgk.
   destruct (range_search_prefix gs ge) as [Hsg Hse].
   assert (El : stk_leaves [(t, 0%nat)] = leaves t) by (unfold stk_leaves; cbn [flat_map fst]; apply app_nil_r).
   unfold run_range, walk_is.
@@ -483,3 +484,8 @@ Proof.
   - unfold stk_size, walk_fuel. cbn [map fst]. rewrite list_sum_cons, list_sum_nil. lia.
   - rewrite El in H1, H2. split; [exact H1|]. split; [exact H2|exact H3].
 Qed.
+
+Theorem run_range_spec : forall t gs ge ans,
+  WF 0 t -> (forall l, In l (leaves t) -> lgk l = ltk l) -> lex_le gs ge ->
+  walk_is (run_range (Some t) gs ge gs ge ans) ans (filter (in_range gs ge) (leaves t)).
+Proof. intros t gs ge ans Hwf Hgk _. apply run_range_any; assumption. Qed.
